@@ -522,6 +522,19 @@ def c08_cases(tier, rng):
             reqs_list.append(rq)
         cfg = campaign.rand_cfg(rng, mode=0, req_mode=None, max_seg=seg, max_packet=64, ack_limit=5)
         cases.append((cfg, data, rng.randint(0, size + 3), reqs_list))
+    # the segment length is the one DERIVED from max_packet_len (the configured maximum is larger or absent): requests
+    # spanning several segments must be re-sent in pieces of the effective length
+    for _ in range(40 if tier == "quick" else 3000):
+        size = rng.choice([9, 13, 20])
+        data = bytes(rng.getrandbits(8) for _ in range(size))
+        c0 = Cfg(mode=0, ack_limit=5, src_idw=rng.choice([1, 2]), dst_idw=rng.choice([1, 2]), seqw=rng.choice([1, 2]), crc=rng.random() < 0.3)
+        hdr = 4 + 2 * max(c0.src_idw, c0.dst_idw) + c0.seqw
+        derived = rng.choice([6, 7, 8])
+        c0.max_packet = hdr + 4 + (2 if c0.crc else 0) + derived
+        c0.max_seg = rng.choice([None, 64, derived + 5])
+        a = rng.randint(0, size - 1)
+        b = rng.randint(a + 1, size)
+        cases.append((c0, data, rng.randint(0, size // derived + 4), [[(a, b)], [(0, size)]][:rng.choice([1, 2])]))
     # NAKs arriving in different steps of one transfer (sending file data, awaiting the EOF ACK, awaiting Finished)
     for _ in range(120 if tier == "quick" else 10000):
         size = rng.choice([4, 5, 8, 9, 13])
